@@ -323,3 +323,32 @@ func judgeCase(root string, c GCase, rep *CaseReport) []Judgement {
 }
 
 var judges []func(root string, c GCase, rep *CaseReport) []Judgement
+
+func init() {
+	// gen: write one generated case to a directory (debugging aid: `harness gen -seed 1 -idx 3 -profile imports -targeted -out dir`)
+	subcommands["gen"] = func(args []string) {
+		fs := flag.NewFlagSet("gen", flag.ExitOnError)
+		seed := fs.Int64("seed", 1, "seed")
+		idx := fs.Int("idx", 0, "case index")
+		profile := fs.String("profile", "mixed", "profile")
+		targeted := fs.Bool("targeted", false, "draw from the targeted families")
+		out := fs.String("out", "", "directory")
+		_ = fs.Parse(args)
+		var c GCase
+		if *targeted {
+			tc, ok := GenTargeted(*seed, *idx, *profile)
+			if !ok {
+				fatal(fmt.Errorf("no targeted family for profile %s", *profile))
+			}
+			c = tc
+		} else {
+			c = GenCase(*seed, *idx, *profile)
+		}
+		_ = os.MkdirAll(*out, 0755)
+		_ = os.WriteFile(filepath.Join(*out, "go.mod"), []byte("module exp\n\ngo 1.21\n"), 0644)
+		if err := writeCase(*out, c); err != nil {
+			fatal(err)
+		}
+		fmt.Println(c.Setup)
+	}
+}
